@@ -150,7 +150,54 @@ func (x *Exec) enterLoop(st *State, fr *Frame, from, to *ssa.BasicBlock, li *loo
 	return x.execFrom(st, fr, to, nphi, from)
 }
 
+// countingPhi: phi of an indexed loop `for i := 0; ...; i++` (starts at the constant 0 on the entry edge and is
+// incremented by exactly 1 on every back edge); its value is the number of completed iterations, like $i of a range loop.
+func countingPhi(phi *ssa.Phi) bool {
+	if len(phi.Edges) < 2 {
+		return false
+	}
+	zero, inc := 0, 0
+	for _, e := range phi.Edges {
+		switch v := e.(type) {
+		case *ssa.Const:
+			if v.Value != nil && v.Value.ExactString() == "0" {
+				zero++
+				continue
+			}
+			return false
+		case *ssa.BinOp:
+			if v.Op == token.ADD && v.X == ssa.Value(phi) {
+				if c, ok := v.Y.(*ssa.Const); ok && c.Value != nil && c.Value.ExactString() == "1" {
+					inc++
+					continue
+				}
+			}
+			return false
+		default:
+			return false
+		}
+	}
+	return zero == 1 && inc >= 1
+}
+
 func (x *Exec) bindPhiName(fr *Frame, phi *ssa.Phi, v Value) {
+	if phi.Comment != "rangeindex" && countingPhi(phi) {
+		// an indexed loop: $i is the counter itself, unless the header also has a range index
+		hasRange := false
+		for _, in := range phi.Block().Instrs {
+			if p, ok := in.(*ssa.Phi); ok && p.Comment == "rangeindex" {
+				hasRange = true
+			}
+		}
+		if tv, ok := v.(TV); ok && !hasRange {
+			fr.names["$i"] = tv
+			if li := x.loops(fr.fn); li != nil {
+				if k, ok := li.ord[phi.Block()]; ok {
+					fr.names[fmt.Sprintf("$i%d", k)] = tv
+				}
+			}
+		}
+	}
 	if phi.Comment == "" {
 		return
 	}
